@@ -20,8 +20,9 @@ func c11(c *eng.Ctx, r *eng.Report) {
 		"R11.2 every Memory access of a handler lies inside a region accounted for by the row's memorySize function (operands as entry stack slots), and every row with a memorySize charges memory gas; " +
 		"R11.3 Contract.Gas is written only by NewContract, UseGas (subtracting on the sufficient-gas edge) and the returned-gas refunds of call/create handlers; " +
 		"R11.4 every frame entry tests the depth limit before doing anything, Run brackets depth++ with a deferred depth--; " +
-		"R11.5 precompiles slice their input only under an established length bound and RunPrecompiledContract charges before running; " +
+		"R11.5 precompiles slice their input only under an established length bound, the shared accessor getData clamps the start offset to len(data) before adding the size and clamps the end too, and RunPrecompiledContract charges before running; " +
 		"R11.6 panics reachable from the interpreter are the reviewed ones; R11.7 overflow flags are consumed; R11.8 Run validates the stack, charges constant and dynamic gas and resizes memory before operation.execute. " +
+		"R11.9 a write attempt in read-only context surfaces as ErrWriteProtection: Run refuses rows flagged `writes` under the interpreter-wide in.readOnly flag (not the frame argument) before operation.execute, and the flag is sticky across nested frames (shared with C12). " +
 		"Not decided: termination as such, exact gas values."
 	r.Assume = []string{"memory is grown only by Run (mem.Resize) to the size computed by the row's memorySize function", "no recover() exists in vm/executor/core, so a reachable panic crashes the host"}
 	rows := analyseRows(c, r, "R11.1")
@@ -34,6 +35,12 @@ func c11(c *eng.Ctx, r *eng.Report) {
 	c11Panics(c, r)
 	c11Overflow(c, r)
 	c11RunOrder(c, r)
+	// R11.9 write attempts in read-only context surface as a failed call: the interpreter refuses
+	// write rows under the *sticky* in.readOnly flag before executing them (shared with C12 R12.2/R12.3)
+	if run := c.Func("vm", "(*EVMInterpreter).Run"); r.Anchor(run != nil, "R11.9", "vm.(*EVMInterpreter).Run") {
+		c12RunGuardsAs(c, r, run, "R11.9")
+		c12StickyAs(c, r, "R11.9")
+	}
 }
 
 func c11Stack(c *eng.Ctx, r *eng.Report, rows []rowFx) {
@@ -368,9 +375,70 @@ func c11Depth(c *eng.Ctx, r *eng.Report) {
 	}
 }
 
+// c11GetData: the helper every data-reading opcode and precompile relies on
+// clamps the start offset to the data length *before* adding the size, and
+// clamps the end as well, so the slice expression cannot be out of range.
+func c11GetData(c *eng.Ctx, r *eng.Report) {
+	const rule = "R11.5"
+	fn := c.Func("vm", "getData")
+	if !r.Anchor(fn != nil, rule, "vm.getData") {
+		return
+	}
+	why := ""
+	n := 0
+	isLen := func(v ssa.Value) bool {
+		d := eng.Desc(v)
+		return d == "builtin:len(data)" || d == "conv:uint64(builtin:len(data))"
+	}
+	for _, b := range fn.Blocks {
+		for _, in := range b.Instrs {
+			sl, ok := in.(*ssa.Slice)
+			if !ok || !isParamNamed(sl.X, "data") {
+				continue
+			}
+			n++
+			lo, okLo := sl.Low.(*ssa.Phi)
+			hi, okHi := sl.High.(*ssa.Phi)
+			if !okLo || !okHi {
+				why = "the slice bounds are not both clamped values (phi of the raw value and len(data))"
+				continue
+			}
+			clamped := func(p *ssa.Phi) (other ssa.Value, ok bool) {
+				hasLen := false
+				for _, e := range p.Edges {
+					if isLen(e) {
+						hasLen = true
+					} else {
+						other = e
+					}
+				}
+				return other, hasLen && other != nil
+			}
+			start, ok1 := clamped(lo)
+			end, ok2 := clamped(hi)
+			if !ok1 || !ok2 {
+				why = "a slice bound is not clamped to len(data)"
+				continue
+			}
+			if !isParamNamed(start, "start") {
+				why = "the lower bound is not the clamped start offset"
+			}
+			add, isAdd := end.(*ssa.BinOp)
+			if !isAdd || add.Op != token.ADD || !(add.X == ssa.Value(lo) || add.Y == ssa.Value(lo)) {
+				why = "the end offset is " + eng.Desc(end) + ", not (clamped start) + size: with the raw start the sum can wrap around 2^64 and data[start:end] panics with start > end — an out-of-range read offset crashes the host instead of yielding zeros"
+			}
+		}
+	}
+	if n != 1 && why == "" {
+		why = fmt.Sprintf("%d slice expressions on data (one expected)", n)
+	}
+	r.Check(why == "", rule, "vm.getData:clamp-before-add", c.Pos(fn.Pos()), "data[min(start,len) : min(min(start,len)+size, len)]", "getData: "+why)
+}
+
 func c11Precompiles(c *eng.Ctx, r *eng.Report) {
 	const rule = "R11.5"
 	r.Min(rule, 20)
+	c11GetData(c, r)
 	rp := c.Func("vm", "RunPrecompiledContract")
 	if r.Anchor(rp != nil, rule, "vm.RunPrecompiledContract") {
 		ok := false
